@@ -509,9 +509,13 @@ OBSERVABLES = {
     "C11": ("get_conventional_system", "get_material_id", "get_space_group_number", "get_wyckoff_sets_conventional"),
     "C12": ("get_primitive_system", "get_conventional_system", "get_wyckoff_letters_original", "get_wyckoff_letters_primitive", "get_wyckoff_letters_conventional",
             "get_equivalent_atoms_original", "get_equivalent_atoms_primitive", "get_equivalent_atoms_conventional", "get_space_group_number"),
-    "C14": ("get_crystal_system", "get_bravais_lattice", "get_point_group", "get_wyckoff_sets_conventional", "get_conventional_system"),
+    "C14": ("get_crystal_system", "get_bravais_lattice", "get_point_group", "get_space_group_number"),
     "C15": ("get_is_chiral", "get_space_group_number", "get_hall_number"),
 }
+
+
+# arguments of observed getters that only some properties can observe (everything not listed is observable by whoever observes the getter)
+ARG_OBSERVERS = {("get_wyckoff_sets_conventional", "return_parameters"): ("C08",)}
 
 
 def _reads_of(M, meth, name, seen=None):
@@ -577,7 +581,10 @@ def reset_covers_caches(rep, M, rid):
         else:
             rep.violation(rid, f"SymmetryAnalyzer memo self.{a}", f"written in {assigned[a]} and kept on the analyzer, but reset() does not re-initialise it: "
                           "after set_system(other) the analyzer answers for the previous structure", M.where(SA + "." + assigned[a]))
-    module_state(rep, M, rid)
+    module_state(rep, M, rid, roots=[SA + "." + o for o in obs] if obs else None)
+    observed_methods = None
+    if obs:
+        observed_methods = {q.split(".")[-1] for q in M.reachable([SA + "." + o for o in obs]) if M.parent.get(q) == SA}
     # set_system(): every path to its end passes through self.reset() (an early return keeps the memos of the previous - or the same, since
     # modified in place - structure)
     from .cfg import CFG, walk_own
@@ -605,7 +612,10 @@ def reset_covers_caches(rep, M, rid):
                 attr = [x for x in ast.walk(t.test) if isinstance(x, ast.Attribute) and isinstance(x.value, ast.Name) and x.value.id == "self"]
                 if attr and not (names & set(ps)):
                     used = [p for p in ps if any(isinstance(x, ast.Name) and x.id == p for s2 in f.body for x in ast.walk(s2))]
-                    if used:
+                    if used and observed_methods is not None and (name not in observed_methods or
+                                                                 any(pid not in ARG_OBSERVERS.get((name, p), (pid,)) for p in used)):
+                        rep.note(f"SymmetryAnalyzer.{name} returns a memo regardless of {used}; not observable through the getters of {pid}")
+                    elif used:
                         rep.violation(rid, f"SymmetryAnalyzer.{name}: memo `{ast.unparse(t.test)[:50]}`", f"the cached result is returned regardless of the "
                                       f"argument(s) {used}: a later call with another argument gets the first call's answer (e.g. sets without the "
                                       "free parameters although they were requested)", M.where(SA + "." + name, t))
@@ -615,7 +625,9 @@ def reset_covers_caches(rep, M, rid):
             if any(k in t for k in ("lru_cache", "functools.cache", "cached_property")) or t == "cache":
                 clears = any(isinstance(c, ast.Call) and isinstance(c.func, ast.Attribute) and c.func.attr == "cache_clear" and name in ast.unparse(c)
                              for c in ast.walk(meth["reset"]))
-                if not clears:
+                if not clears and observed_methods is not None and name not in observed_methods:
+                    rep.note(f"SymmetryAnalyzer.{name} is memoised with @{t} outside reset(); no getter observed for {pid} reaches it")
+                elif not clears:
                     rep.violation(rid, f"SymmetryAnalyzer.{name} @{t}", "result memoised per analyzer object outside the attributes reset() clears: "
                                   "after set_system(other) the analyzer answers for the previous structure", M.where(SA + "." + name))
     calls_reset = any(isinstance(c, ast.Call) and isinstance(c.func, ast.Attribute) and c.func.attr == "reset" and isinstance(c.func.value, ast.Name)
@@ -852,8 +864,38 @@ def tolerance_reaches_spglib(rep, M, rid):
         rep.violation(rid, "SymmetryAnalyzer.__init__: symmetry_tol", "the constructor argument is not stored", M.where(SA + ".__init__"))
 
 
-def handed_out_objects_not_mutated(rep, M, rid):
-    """systems that the analyzer caches and hands out (conventional / primitive system) are never modified afterwards"""
+def two_d_only_flags(M):
+    """attributes of the analyzer that hold a value other than None only for structures with two periodic directions: every store of a
+    non-None value is control-dependent on `<number of periodic directions> == 2`"""
+    from .dataflow import Flow
+    stores = {}
+    for q, d in M.functions().items():
+        if M.parent.get(q) != SA:
+            continue
+        fl = None
+        for st in ast.walk(d):
+            if isinstance(st, ast.Assign) and len(st.targets) == 1 and isinstance(st.targets[0], ast.Attribute) and norm(st.targets[0].value) == "self" \
+                    and not (isinstance(st.value, ast.Constant) and st.value.value is None):
+                fl = fl or Flow(d)
+                n = fl.node_of(st)
+                two_d = False
+                for t, pol in fl.cfg.branch_conditions(n):
+                    test = getattr(t, "test", None)
+                    if pol and isinstance(test, ast.Compare) and len(test.ops) == 1 and isinstance(test.ops[0], ast.Eq) \
+                            and isinstance(test.comparators[0], ast.Constant) and test.comparators[0].value == 2 and isinstance(test.left, ast.Name):
+                        vals = [v for dn in fl.rd[fl.node_of(t)].get(test.left.id, ()) if dn != fl.cfg.entry for k, v, *_ in
+                                [tuple(x) + (None,) for x in fl.def_value(dn, test.left.id)] if k == "expr"]
+                        if vals and all(isinstance(v, ast.Call) and norm(v.func).split(".")[-1] == "sum" and "pbc" in norm(v) for v in vals):
+                            two_d = True
+                stores.setdefault(st.targets[0].attr, []).append(two_d)
+    return {a for a, flags in stores.items() if flags and all(flags)}
+
+
+def handed_out_objects_not_mutated(rep, M, rid, three_d_only=False):
+    """systems that the analyzer caches and hands out (conventional / primitive system) are never modified afterwards.
+    three_d_only: the borrowing property speaks about three-dimensionally periodic crystals only; a modification that is control-dependent on
+    a flag which is set only for 2D structures cannot be reached for them"""
+    flags_2d = two_d_only_flags(M) if three_d_only else set()
     from .effects import Effects, MUTATORS
     E = Effects(M)
     fq = SA + "._get_primitive_system"
@@ -908,6 +950,11 @@ def handed_out_objects_not_mutated(rep, M, rid):
                     for k in c.keywords:
                         if isinstance(k.value, ast.Name) and k.arg in E.mut[callee]:
                             hits.append((k.value.id, f"{callee.split('.')[-1]}() modifies its parameter `{k.arg}` in place"))
+                if hits and flags_2d and any(pol and isinstance(getattr(t, "test", None), ast.Compare) and isinstance(t.test.ops[0], ast.IsNot)
+                                             and isinstance(t.test.left, ast.Attribute) and norm(t.test.left.value) == "self" and t.test.left.attr in flags_2d
+                                             for t, pol in fl.cfg.branch_conditions(node)):
+                    rep.ok(rid, f"{d.name}: `{norm(c)[:50]}` runs only for structures with two periodic directions")
+                    continue
                 for name, how in hits:
                     src = cached(name, node)
                     if src:
@@ -923,7 +970,10 @@ TABLE_NAMES = ("CHIRALITY_PRESERVING_EUCLIDEAN_NORMALIZERS", "WYCKOFF_SETS", "SP
 _TAB_MUT = {"append", "extend", "insert", "pop", "remove", "clear", "sort", "reverse", "update", "setdefault", "popitem", "add", "discard", "fill", "put", "itemset", "resize"}
 
 
-def tables_read_only(rep, M, rid):
+IMPORT_UNIT = "matid.data.symmetry_data.<import time>"
+
+
+def tables_read_only(rep, M, rid, only_import=False):
     """no function stores into, or calls a mutator on, an object obtained from the built-in symmetry tables (the tables are module
     state shared by every analysis: an in-place edit changes what all later lookups see)"""
     from .dataflow import Flow
@@ -931,12 +981,28 @@ def tables_read_only(rep, M, rid):
     from .effects import Effects
     E = Effects(M)
     n_funcs = n_sites = 0
-    for q, d in M.functions().items():
+    from . import tables as _tables
+    extra = _tables.load(M.root).get(_tables.IMPORT_TIME, [])
+    units = list(M.functions().items()) if not only_import else []
+    if only_import and not extra:
+        rep.ok(rid, "the table module consists of imports and literal assignments only")
+        return
+    if extra:
+        # statements of the table module that run at import after the literals, analysed as one synthetic function
+        body = []
+        for lineno, text in extra:
+            for st in ast.parse(text).body:
+                ast.increment_lineno(st, lineno - 1)
+                body.append(st)
+        syn = ast.FunctionDef(name="<import time>", args=ast.arguments(posonlyargs=[], args=[], kwonlyargs=[], kw_defaults=[], defaults=[]),
+                              body=body, decorator_list=[], lineno=extra[0][0], col_offset=0)
+        units.append((IMPORT_UNIT, ast.fix_missing_locations(syn)))
+    for q, d in units:
         src_names = {x.id for x in ast.walk(d) if isinstance(x, ast.Name) and x.id in TABLE_NAMES} | \
                     {x.attr for x in ast.walk(d) if isinstance(x, ast.Attribute) and x.attr in TABLE_NAMES}
         if not src_names:
             continue
-        n_funcs += 1
+        n_funcs += q != IMPORT_UNIT
         fl = Flow(d)
 
         def from_table(e, at, depth=0):
@@ -999,7 +1065,7 @@ def tables_read_only(rep, M, rid):
                     r = from_table(c.func.value, node)
                     if r:
                         hits.append((c, r, f"calls .{c.func.attr}() on it"))
-                for callee in M.callees_of_call(q, c):
+                for callee in (M.callees_of_call(q, c) if q != IMPORT_UNIT else ()):
                     if callee not in E.mut:
                         continue
                     ps2 = [x for x in M.params(callee) if x != "self"]
@@ -1008,11 +1074,34 @@ def tables_read_only(rep, M, rid):
                             r = from_table(a, node)
                             if r:
                                 hits.append((c, r, f"passes it to {callee.split('.')[-1]}(), which modifies its parameter `{ps2[i]}`"))
+            if q == IMPORT_UNIT:
+                for nd, tab, how in hits:
+                    # a pure change of representation of the same entry (array(x), x.copy(), tuple(x) ...) leaves the values alone
+                    val = nd.value if isinstance(nd, ast.Assign) else None
+                    tgt = norm(nd.targets[0]) if isinstance(nd, ast.Assign) else None
+                    same = lambda e: norm(e) == tgt or (isinstance(e, ast.Name) and from_table(e, node) is not None)      # noqa: E731
+                    conv = isinstance(val, ast.Call) and not val.keywords and (
+                        (isinstance(val.func, ast.Name) and val.func.id in ("array", "asarray", "tuple", "list", "float64") and len(val.args) == 1 and same(val.args[0]))
+                        or (isinstance(val.func, ast.Attribute) and val.func.attr in ("array", "asarray") and len(val.args) == 1 and same(val.args[0]))
+                        or (isinstance(val.func, ast.Attribute) and val.func.attr == "copy" and not val.args and same(val.func.value)))
+                    if conv:
+                        rep.ok(rid, f"import-time statement `{norm(nd)[:50]}` only changes the representation of a table entry")
+                        continue
+                    n_sites += 1
+                    rep.violation(rid, f"data.symmetry_data import time: `{norm(nd)[:60]}`", f"the table module rewrites entries of {tab} after their literal definition "
+                                  f"({how}) with something other than a change of representation: the values the library uses are no longer the literals of the file "
+                                  "(e.g. snapping to multiples of 1/12 turns the eighths of the d-glide groups into sixths and thirds), and every table obligation "
+                                  "decided on the literals is void", f"matid/data/symmetry_data.py:{getattr(nd, 'lineno', 0)} (module level)")
+                continue
             for nd, tab, how in hits:
                 n_sites += 1
                 rep.violation(rid, f"{q.replace('matid.', '')}: `{norm(nd)[:60]}`", f"an object taken from the built-in table {tab} is modified in place ({how}): the table is "
                               "module state shared by every analysis of the process, so every later lookup (and anyone inspecting the table) sees entries that are not in "
                               "the source file - e.g. an identity record with a partial letter permutation inserted among the normalizers", M.where(q, nd))
+    if only_import:
+        if not n_sites:
+            rep.ok(rid, f"{len(extra)} import-time statement(s) of the table module: none rewrites the values of a table entry")
+        return
     if n_funcs == 0:
         raise AnalysisError("no function reads the built-in symmetry tables")
     if not n_sites:
@@ -1024,10 +1113,14 @@ GEOMETRY_SIDE = ("matid.geometry", "matid.clustering", "matid.core", "matid.clas
 SYMMETRY_SIDE = ("matid.symmetry", "matid.geometry", "matid.data", "matid.utils", "matid.core.system")
 
 
-def module_state(rep, M, rid, prefixes=SYMMETRY_SIDE):
+def module_state(rep, M, rid, prefixes=SYMMETRY_SIDE, roots=None):
     """no function writes into a module-level object (a dict / list / array defined at import time): such a memo or buffer makes a result
-    depend on what the process analysed before, and nothing invalidates it when the inputs change"""
+    depend on what the process analysed before, and nothing invalidates it when the inputs change.
+    roots: entry points the borrowing property observes; a write in a function that none of them reaches is a note, not a violation"""
     n_mod = n_fn = 0
+    reach = None
+    if roots:
+        reach = {(M.owner_mod.get(q), q.split(".")[-1]) for q in M.reachable(roots)}
     hits = []
     for mname, tree in M.mods.items():
         if not any(mname == pf or mname.startswith(pf + ".") for pf in prefixes):
@@ -1077,6 +1170,11 @@ def module_state(rep, M, rid, prefixes=SYMMETRY_SIDE):
                 if "lru_cache" in dn or dn.endswith("cache") or dn.endswith("cache()"):
                     hits.append((mname, fn.name, dec, dn))
     rep.count("modules_scanned_for_shared_state", n_mod)
+    if reach is not None:
+        for mname, fname, node, what in hits:
+            if (mname, fname) not in reach:
+                rep.note(f"{mname}.{fname} keeps module-level state `{what}`, but no entry point observed for {getattr(rep, 'pid', '?')} reaches it")
+        hits = [h for h in hits if (h[0], h[1]) in reach]
     for mname, fname, node, what in hits:
         rep.violation(rid, f"{mname.replace('matid.', '')}.{fname}: `{norm(node)[:60]}`", f"writes into / memoises in the module-level object `{what}`: the value is shared by every call "
                       "in the process and is never invalidated, so a result depends on which structures (or parameters) were analysed before - a second, different input with the same "
